@@ -34,7 +34,7 @@ ASSUMPTIONS = [
     "legacy event dicts always carry 'message' (a tuple) and 'isError', as twisted.python.log guarantees",
 ]
 MIN = {"quick": {"evaluations": 840000, "nontrivial": 820000, "outcomes": 8},
-       "thorough": {"evaluations": 1800000, "nontrivial": 1750000, "outcomes": 8}}
+       "thorough": {"evaluations": 2600000, "nontrivial": 2550000, "outcomes": 8}}
 
 
 # ----------------------------------------------------------------- hostile values
